@@ -1,6 +1,5 @@
 # Claims table, exec'd by gen_manifest.py.
 PENDING.update({
- "C10": "check not built yet in this round (planned: xfr simulation, DESIGN section 4)",
  "C14": "check not built yet in this round (planned: validator simulation, DESIGN section 4)",
 })
 claim("C15", "exploration",
@@ -44,3 +43,9 @@ claim("C02", "fault_enumeration",
       "Trusted: the list model and parser-based read-back in /verif/sim (the read-back uses the library's own Message parser, whose totality is C01 and not claimed). FaultySink honours octseq's 'error leaves the builder alone' contract (no torn appends).",
       "fault injection on the target-buffer seam with exhaustive enumeration of the fault point per sampled operation sequence; list reference model",
       "DESIGN.md section 4, C02")
+
+claim("C10", "exploration",
+      "Seeded exploration of zone histories, packagings and message-level faults: a primary zone evolves through committed steps on the real write interface (every reported diff must turn content n-1 into content n, serials included, also across the 2^32 wrap); AXFR / multi-step IXFR record sequences are cut into messages at drawn points and delivered with at most one fault (drop, duplicate, swap, truncate, header corruption, wrong question type, stream cut) to the real interpreter + updater of a secondary; a reader of the secondary must see only complete versions, and the outcome must agree with an independent RFC 5936 / RFC 1995 reference interpreter run on the delivered messages. A second scenario lets the real XFR server middleware (zone/diff funnelers, batcher) produce the messages for AXFR, IXFR, journal-less fallback and current/newer-serial requests. Evidence, not proof; two known findings are reported.",
+      "The interpreter/updater are driven directly (byte-stream transports are C15/C16, TSIG sequences C11). The AXFR zone walk of the middleware runs on a real blocking thread: contained (nothing else scheduled meanwhile), not scheduled by the simulator. Trusted: the reference interpreter, packager and content model in /verif/sim.",
+      "deterministic simulation with fault injection (message-level stream faults, packaging choices, abort = updater dropped) and refinement against an executable RFC 5936/1995 reference interpreter",
+      "DESIGN.md section 4, C10")
